@@ -109,6 +109,7 @@ static uint8_t loop_stop(m_ctx_t *c) {
     c->stats.looping_start_time = 0;
     c->stats.recv_msgs = 0;
     c->stats.idle_time = 0;
+    c->stats.last_recv_time = 0;
 
     int ret = c->quit_code;
     
@@ -208,11 +209,9 @@ static void push_evt(m_mod_t *mod, evt_priv_t *evt) {
 }
 
 static int recv_events(m_ctx_t *c, int timeout) {
-    static uint64_t last_time_called;
-
     if (c->stats.recv_msgs == 0) {
         // First time entering: (re)start counter
-        fetch_ms(&last_time_called, NULL);
+        fetch_ms(&c->stats.last_recv_time, NULL);
     }
 
     int err;
@@ -225,7 +224,7 @@ static int recv_events(m_ctx_t *c, int timeout) {
     // Store idling time stat
     uint64_t now;
     fetch_ms(&now, NULL);
-    c->stats.idle_time += now - last_time_called;
+    c->stats.idle_time += now - c->stats.last_recv_time;
 
     for (int i = 0; i < nfds && !err; i++) M_VERIF_LOOP(ctx_recv) {
         ev_src_t *p = poll_recv(&c->ppriv, i);
@@ -323,7 +322,7 @@ static int recv_events(m_ctx_t *c, int timeout) {
         }
     }
 
-    fetch_ms(&last_time_called, NULL);
+    fetch_ms(&c->stats.last_recv_time, NULL);
     return recved;
 }
 
